@@ -437,6 +437,11 @@ def check_main(a):
               % (prop, k["what"], n, len(sigs), seed0))
         n_known += 1
     if herrors:
+        try:
+            with open(VERIF / "replays" / ("harness-errors-%s.log" % prop), "a") as hf:
+                hf.write("==== seed=%d tier=%s\n" % (a.seed, tier) + "\n----\n".join(herrors) + "\n")
+        except OSError:
+            pass
         print("HARNESS-ERROR (%d):" % len(herrors))
         for h in herrors[:5]:
             print("  " + h.replace("\n", "\n  ")[:3000])
